@@ -185,6 +185,35 @@ def run(tier="quick", seed=0, arg=None):
                             continue
                         if got != exp:
                             fails.append({"check": "C03.evaluate", "input": {"text": t, "env": e}, "observed": got, "expected": exp})
+    # ... and two atoms on the same variable around one literal (merged while parsing: `< V or > V` becomes `!= V`, `>= V or < V` the universal marker):
+    # the merge is computed in the interval model, which has no PEP 440 exclusion rule for pre-/post-releases of an exclusive bound (finding D22)
+    for var, lit, rel in (("python_full_version", "3.13", "3.13.0"), ("python_full_version", "3.8.5", "3.8.5"), ("platform_release", "5.10", "5.10.0")):
+        vals = [rel, rel + "rc1", rel + ".post1", rel + ".dev1", rel + "a1"]
+        lits = [lit] + ([lit + ".0"] if lit.count(".") < 2 else [])
+        for o1 in ("<", "<=", ">", ">=", "==", "!="):
+            for o2 in ("<", "<=", ">", ">=", "==", "!="):
+                for l2 in lits:
+                    for glue in ("and", "or"):
+                        for t in (f'{var} {o1} "{lit}" {glue} {var} {o2} "{l2}"', f'"{lit}" {o1} {var} {glue} {var} {o2} "{l2}"'):
+                            try:
+                                m, ref = parse_marker(t), PkgMarker(t)
+                            except Exception as e:  # noqa: BLE001
+                                fails.append({"check": "C03.parse-raises", "input": {"text": t}, "observed": repr(e), "expected": "parses"})
+                                continue
+                            for v in vals:
+                                e = dict(base, extra="", **{var: v})
+                                evals += 1
+                                try:
+                                    exp = ref.evaluate(e)
+                                except Exception:  # noqa: BLE001
+                                    continue
+                                try:
+                                    got = m.evaluate(e)
+                                except Exception as ex:  # noqa: BLE001
+                                    fails.append({"check": "C03.evaluate-raises", "input": {"text": t, "env": e}, "observed": repr(ex), "expected": exp})
+                                    continue
+                                if got != exp:
+                                    fails.append({"check": "C03.evaluate", "input": {"text": t, "env": e, "rendered": str(m)}, "observed": got, "expected": exp})
     return {"suite": "marker_vs_packaging", "evaluations": evals, "distinct_nontrivial": len(distinct), "not_evaluated": timeouts,
             "rule": "marker texts over the well-defined atom pool (both operand orders, nested and/or with parentheses), each evaluated on %d environments "
                     "by dep-logic and by the installed packaging; non-trivial = reference truth value varies over the grid; environments on which packaging itself "
